@@ -217,3 +217,55 @@ pub fn run_vecgrid(seed: u64, tier: &str, out: &mut dyn FnMut(String)) {
         }
     }
 }
+
+/// C19: LIST.* on states with stack-id vectors and records on the CODE stack
+pub fn run_listops(seed: u64, tier: &str, out: &mut dyn FnMut(String)) {
+    use crate::gen::{gen_float, gen_int, gen_item};
+    use pushr::push::item::Item;
+    use pushr::push::vector::IntVector;
+    let names = ["LIST.ADD", "LIST.BVAL", "LIST.FVAL", "LIST.GET", "LIST.IVAL", "LIST.REMOVE", "LIST.SET"];
+    let all = instruction_names();
+    let inert: Vec<String> = vec!["NOOP".to_string(), "INTEGER.+".to_string()];
+    let n = if tier == "thorough" { 6000 } else { 700 };
+    let mut iset = make_iset(false);
+    for name in names.iter() {
+        for case in 0..n {
+            let mut r = Rng::for_case(seed, &format!("listops:{}", name), case);
+            let rich = r.chance(1, 2);
+            let mut st = gen_state(&mut r, &GenOpts { instrs: &all, rich, item_depth: 2 });
+            // records: lists of literals, some nested
+            st.code_stack.flush();
+            for _ in 0..r.below(5) {
+                let k = r.below(6);
+                let v: Vec<Item> = (0..k)
+                    .map(|_| match r.below(6) {
+                        0 => Item::bool(r.chance(1, 2)),
+                        1 | 2 => Item::int(gen_int(&mut r)),
+                        3 => Item::float(gen_float(&mut r)),
+                        4 => gen_item(&mut r, 2, &inert),
+                        _ => Item::list(vec![Item::int(gen_int(&mut r)), Item::bool(true), Item::float(gen_float(&mut r))]),
+                    })
+                    .collect();
+                st.code_stack.push(if r.chance(1, 8) { Item::int(5) } else { Item::list(v) });
+            }
+            // stack-id vector on top of INTVECTOR
+            let k = r.below(7);
+            let ids: Vec<i32> = (0..k)
+                .map(|_| if r.chance(5, 6) { *r.pick(&[1, 2, 3, 4, 5, 6, 9, 10, 11, 9, 1, 5]) } else { *r.pick(&[0, 7, 8, 12, 13, -1, 99]) })
+                .collect();
+            if r.chance(9, 10) {
+                st.int_vector_stack.push(IntVector::new(ids));
+            }
+            // (n, position) operands
+            let depth = st.code_stack.size() as i64;
+            st.int_stack.push(r.range(-2, depth + 2) as i32);
+            if name.ends_with("VAL") {
+                st.int_stack.push(if r.chance(1, 8) { *r.pick(&[-1, i32::MIN, i32::MAX, 50]) } else { r.range(0, 4) as i32 });
+            }
+            if r.chance(1, 12) {
+                st.int_stack.flush();
+            }
+            out(observe_exec(&mut iset, name, st));
+        }
+    }
+}
